@@ -103,7 +103,7 @@ mutual
     (`_set_owner`, `rebuild_caches`, `remove_from_caches`) visit them: a non-element node is not
     entered; `none` when the subtree is deeper than the budget (RecursionError) -/
 def elems (h : Heap) : Nat → Id → Option (List Id)
-  | 0, _ => none
+  | 0, n => if (h n).kind = .elem then none else some []
   | f + 1, n =>
     if (h n).kind = .elem then (elemsL h f (h n).kids).map (fun l => n :: l) else some []
 def elemsL (h : Heap) : Nat → List Id → Option (List Id)
